@@ -10,7 +10,12 @@
 (* Request kinds: a valid session whose named attribute carries the        *)
 (* required value (among others, in any position), a valid session without *)
 (* it, a valid session without the attribute at all, no session cookie, an *)
-(* expired session token, a token of another deployment.  Every history of *)
+(* expired session token, a token of another deployment - and valid        *)
+(* sessions whose named attribute carries a NEAR MISS of the required      *)
+(* value: the same letters in another case, a Unicode look-alike that      *)
+(* simple case folding maps onto it (LATIN SMALL LETTER LONG S for s), a   *)
+(* proper prefix.  "Carries the required value" is equality of strings:    *)
+(* only the class exact does.  Every history of                            *)
 (* up to MaxLen requests is emitted and replayed on one real handler value *)
 (* (harness/c16_gate_history_test.go).                                     *)
 (***************************************************************************)
@@ -18,19 +23,38 @@ EXTENDS Integers, Sequences, TLC, Json
 
 CONSTANT MaxLen
 
-Kinds == {"entitled", "entitled-2nd-value", "other-value", "no-attribute", "no-cookie", "expired", "foreign"}
+Kinds == {"entitled", "entitled-2nd-value", "other-value", "no-attribute", "no-cookie", "expired", "foreign",
+          "value-other-case", "value-fold-lookalike", "value-prefix"}
+
+\* how the values of the named attribute in the request's session relate to the required value:
+\* exact (one of them IS the required string) | otherCase (differs in letter case only) | foldLookalike (differs
+\* only by characters that Unicode simple case folding identifies) | prefix (a proper prefix of it) | other |
+\* absent (no attribute of that name) | noSession
+ValueClass(k) == CASE k \in {"entitled", "entitled-2nd-value"} -> "exact"
+                   [] k = "value-other-case"     -> "otherCase"
+                   [] k = "value-fold-lookalike" -> "foldLookalike"
+                   [] k = "value-prefix"         -> "prefix"
+                   [] k = "other-value"          -> "other"
+                   [] k = "no-attribute"         -> "absent"
+                   [] OTHER                      -> "noSession"
+ValueClasses == {"exact", "otherCase", "foldLookalike", "prefix", "other", "absent", "noSession"}
+\* "only when the named attribute carries the required value"
+CarriesRequired(vc) == vc = "exact"
 
 \* what the statement requires of one request, whatever came before it
-Required(k) == CASE k \in {"entitled", "entitled-2nd-value"} -> "served"
-                 [] k \in {"other-value", "no-attribute"}    -> "forbidden"
-                 [] OTHER                                    -> "no-session"      \* login flow started, handler not run
+Required(k) == CASE CarriesRequired(ValueClass(k)) -> "served"
+                 [] ValueClass(k) = "noSession"    -> "no-session"      \* login flow started, handler not run
+                 [] OTHER                          -> "forbidden"
 
 VARIABLE hist
 Init == hist = <<>>
-Step(k) == Len(hist) < MaxLen /\ hist' = Append(hist, [k |-> k, req |-> Required(k)])
+Step(k) == Len(hist) < MaxLen /\ hist' = Append(hist, [k |-> k, vc |-> ValueClass(k), req |-> Required(k)])
 Next == \E k \in Kinds : Step(k)
 
 HistoryFree == \A i \in DOMAIN hist : hist[i].req = Required(hist[i].k)
+\* every value class is a kind's, and only exact is served
+OnlyExactServed == /\ ValueClasses = { ValueClass(k) : k \in Kinds }
+                   /\ \A i \in DOMAIN hist : hist[i].req = "served" <=> hist[i].vc = "exact"
 \* only histories in which an admitted request precedes one that must not be admitted, or vice versa, exercise anything
 Mixed == \E i, j \in DOMAIN hist : i < j /\ hist[i].req # hist[j].req
 Emit == (Len(hist) = MaxLen /\ Mixed) => PrintT(<<"GHIST", ToJson([steps |-> hist])>>)
